@@ -208,12 +208,17 @@ func alphabet(r role) []call {
 	complaint := []byte{2, byte(r.Dealer)}
 	answer := append([]byte{3, byte(other)}, share[1:]...)
 	a := []call{{"Start", "start", 0, nil}, {"Start(31-byte seed)", "startshort", 0, nil}, {"NextTimeout", "timeout", 0, nil}, {"End", "end", 0, nil}}
-	idx := map[string]int{"-1": -1, "self": r.Me, "dealer": r.Dealer, "other": other, "n": r.N}
-	order := []string{"-1", "self", "dealer", "other", "n"}
+	// participant indices are stored in a byte by the implementation: values that are in range only
+	// modulo 256 (255, 256, 256+dealer, 65536+other) must be refused like any other out-of-range index
+	idx := map[string]int{"-1": -1, "self": r.Me, "dealer": r.Dealer, "other": other, "n": r.N, "255": 255, "256": 256, "256+dealer": 256 + r.Dealer, "65536+other": 65536 + other}
+	order := []string{"-1", "self", "dealer", "other", "n", "256+dealer"}
 	if r.Proto == dkgsys.JF {
 		idx["dealer"] = sender
 	}
-	for _, k := range []string{"-1", "dealer", "other", "n"} {
+	if r.Proto == dkgsys.JF {
+		idx["256+dealer"] = 256 + sender
+	}
+	for _, k := range []string{"-1", "dealer", "other", "n", "255", "256", "256+dealer", "65536+other"} {
 		a = append(a, call{"ForceDisqualify(" + k + ")", "fd", idx[k], nil})
 	}
 	bm := map[string][]byte{"empty": {}, "junk": {9, 1, 2}, "vector": vec, "complaint": complaint, "answer": answer}
@@ -457,7 +462,7 @@ func main() {
 		return
 	}
 	ev.Par(len(roles), func(i int) { explore(roles[i], depth) })
-	run.Set("rule", "per (protocol, role): BFS from a fresh real instance over the call alphabet {Start(valid seed), Start(31-byte seed), NextTimeout, End, ForceDisqualify(-1|dealer|other|n), HandleBroadcastMsg/HandlePrivateMsg(origin in {-1,self,dealer,other,n} x message in {empty, junk tag, recorded well-formed vector/complaint/answer/share})}; successor = deep clone + real call; states deduplicated by (canonical hash of every instance field, model state); explored to fixpoint below the depth cap (depth_cap_hit reports whether the cap cut anything). Each call's error class and Running() are compared with the documented state machine; every rejected call is checked for non-interference (equal canonical state, else all continuations to depth 3). distinct_nontrivial = distinct reachable (instance state) classes.")
+	run.Set("rule", "per (protocol, role): BFS from a fresh real instance over the call alphabet {Start(valid seed), Start(31-byte seed), NextTimeout, End, ForceDisqualify(-1|dealer|other|n|255|256|256+dealer|65536+other), HandleBroadcastMsg/HandlePrivateMsg(origin in {-1,self,dealer,other,n,256+dealer} x message in {empty, junk tag, recorded well-formed vector/complaint/answer/share})}; successor = deep clone + real call; states deduplicated by (canonical hash of every instance field, model state); explored to fixpoint below the depth cap (depth_cap_hit reports whether the cap cut anything). Each call's error class and Running() are compared with the documented state machine; every rejected call is checked for non-interference (equal canonical state, else all continuations to depth 3). distinct_nontrivial = distinct reachable (instance state) classes.")
 	run.Set("depth_cap", depth)
 	run.Assume("reuse after End (Start after End) is outside the quantifier", "well-formed messages come from an honest dealer run with the same parameters")
 	run.Finish()
